@@ -12,6 +12,8 @@ pub enum Pat {
     Group(Delimiter, Vec<Pat>),
     Var(String),
     Rest(String),
+    /// `$,name` — a (non-empty) run of token trees up to the next top-level comma / end of group
+    UntilComma(String),
 }
 
 pub fn parse_pattern(s: &str) -> Result<Vec<Pat>, String> {
@@ -31,6 +33,13 @@ fn conv(ts: TokenStream) -> Vec<Pat> {
                     out.push(Pat::Var(id.to_string()));
                     i += 2;
                     continue;
+                }
+                if let (Some(TokenTree::Punct(a)), Some(TokenTree::Ident(id))) = (toks.get(i + 1), toks.get(i + 2)) {
+                    if a.as_char() == ',' {
+                        out.push(Pat::UntilComma(id.to_string()));
+                        i += 3;
+                        continue;
+                    }
                 }
                 if let (Some(TokenTree::Punct(a)), Some(TokenTree::Punct(b)), Some(TokenTree::Ident(id))) =
                     (toks.get(i + 1), toks.get(i + 2), toks.get(i + 3))
@@ -85,6 +94,19 @@ fn match_seq(pat: &[Pat], toks: &[TokenTree], b: &mut Bindings) -> bool {
             }
             _ => {}
         }
+        if let Pat::UntilComma(name) = p {
+            let start = ti;
+            while ti < toks.len() && !matches!(&toks[ti], TokenTree::Punct(q) if q.as_char() == ',') {
+                ti += 1;
+            }
+            if ti == start {
+                return false;
+            }
+            let run = &toks[start..ti];
+            let text: String = run.iter().map(|t| t.to_string()).collect::<Vec<_>>().join(" ");
+            b.insert(name.clone(), (Some((run[0].span(), run[run.len() - 1].span())), text));
+            continue;
+        }
         let Some(t) = toks.get(ti) else { return false };
         match p {
             Pat::Tok(s) => {
@@ -111,7 +133,7 @@ fn match_seq(pat: &[Pat], toks: &[TokenTree], b: &mut Bindings) -> bool {
                 }
                 _ => return false,
             },
-            Pat::Rest(_) => unreachable!(),
+            Pat::Rest(_) | Pat::UntilComma(_) => unreachable!(),
         }
         ti += 1;
     }
